@@ -99,13 +99,14 @@ package internal
 //@ func internal.DecodeXMLRequest(r, v) (err)
 //@   requires R1: validReq(r)
 //@   decodes v
-//@   ensures D1: err != nil ==> httpCode(err) == 400
+//@   ensures D1: err != nil ==> httpCode(err) == 400 && !hostPath(err)
 //@ func internal.ServeMultiStatus(w, ms) (err)
 //@   requires R1: w != nil && wstatus(w) == 0
 //@   ghostset servedMS : ms
 //@   ensures S1: wstatus(w) == 207
-//@   ensures S2: err != nil ==> fromEnv(err)
+//@   ensures S2: err != nil ==> fromEnv(err) && !hostPath(err) && !isHTTP(err)
 //@   ensures S3: servedMS == ms
+//@   ensures S4: forall g http.Header, k string :: g != respHeader(w) ==> hget(hv, g, k) == old(hget(hv, g, k))
 //@ -- Prop.Decode is reflection plus the XML token decoder: assumed (T-xml). A missing element is a 404.
 //@ func internal.(*Prop).Decode(p, v) (err)
 //@   trusted T-xml
@@ -152,3 +153,20 @@ package internal
 //@   ensures N1: err == nil ==> resp != nil && fresh(resp) && len(resp.Hrefs) == 1 && resp.Hrefs[0].Path == path && resp.Status == nil
 //@   ensures N2: err == nil <==> propfind.PropName != nil || propfind.AllProp != nil || propfind.Prop != nil
 //@   ensures N3: err != nil ==> resp == nil && httpCode(err) == 400 && !hostPath(err)
+
+//@ -- error answers (C13, C17): the status is the error's HTTP code, 500 for an error without one; the error text is the body
+//@ func internal.ServeError(w, err)
+//@   requires R1: w != nil && err != nil
+//@   -- C17: no error that carries a host path may reach the client
+//@   requires NOLEAK: !hostPath(err)
+//@   -- http.ResponseWriter.WriteHeader panics on a code outside 100..999 (C13)
+//@   requires CODE: isHTTP(err) ==> 100 <= httpCode(err) && httpCode(err) <= 999
+//@   allocates
+//@   assigns ghost:rstatus, ghost:hv
+//@   ensures S1: rstatus == rsSet(old(rstatus), w, isHTTP(err) ? httpCode(err) : 500)
+//@   ensures S2: forall g http.Header, k string :: g != respHeader(w) ==> hget(hv, g, k) == old(hget(hv, g, k))
+//@ func internal.parseDestination(h) (dest, err)
+//@   ensures P1: err == nil <==> hget(hv, h, "Destination") != "" && urlParseOk(hget(hv, h, "Destination"))
+//@   ensures P2: err == nil ==> dest != nil && dest.Path == urlParsePath(hget(hv, h, "Destination"))
+//@   ensures P3: err != nil ==> dest == nil && httpCode(err) == 400
+//@   ensures P4: err != nil ==> (hostPath(err) ==> strHostPath(hget(hv, h, "Destination")))
